@@ -259,6 +259,12 @@ func (fr *oFrame) indexExpr(x *ast.IndexExpr) oval {
 	}
 	s, ok := base.(oSlice)
 	if !ok {
+		if _, isNil := base.(oNil); isNil {
+			if mt, isMap := fr.info.TypeOf(x.X).Underlying().(*types.Map); isMap {
+				fr.eval(x.Index)
+				return fr.it.zero(mt.Elem()) // a nil map holds nothing
+			}
+		}
 		return oTop{"index of " + showVal(base)}
 	}
 	iv, ok := fr.eval(x.Index).(oInt)
